@@ -310,6 +310,63 @@ class FailureAndRepair(object):
         return run(case, 'C07|failure-plus')
 
 
+class FileNamesVsModuleNames(object):
+    case_timeout = 10
+    name = 'file-names-that-are-other-modules-names'
+    describe = ('3 names A, B, C over 2 sources: a file may hold its own module, ONLY a copy of the next module (file A holds module '
+                'B ...), its own module plus such a copy, or a module named unlike the file - sound or broken; every assignment with '
+                '<=2 of the 6 (source, name) slots off the default x every ordered request of 1-2 names x ignoreErrors: requested '
+                'names are FILE names (each file asked for is read), imported names are MODULE names')
+
+    KINDS = ['absent', 'healthy', 'only', 'plus', 'misnamed', 'misnamedbroken', 'dupsym']
+    SLOTS = ['A0', 'B0', 'C0', 'A1', 'B1', 'C1']
+    DEFAULT = {'A0': 'healthy', 'B0': 'healthy', 'C0': 'healthy', 'A1': 'absent', 'B1': 'absent', 'C1': 'absent'}
+    NEXT = {'A': 'B', 'B': 'C', 'C': 'A'}
+
+    def blocks(self, tier):
+        out = [{'dev': []}]
+        for sl in self.SLOTS:
+            for k in self.KINDS:
+                if k != self.DEFAULT[sl]:
+                    out.append({'dev': [[sl, k]]})
+        return out
+
+    def cases(self, block, tier):
+        assigns = []
+        base = dict(self.DEFAULT)
+        for sl, k in block['dev']:
+            base[sl] = k
+        assigns.append(base)
+        if block['dev']:
+            first = block['dev'][0][0]
+            for sl in self.SLOTS[self.SLOTS.index(first) + 1:]:
+                for k in self.KINDS:
+                    if k != self.DEFAULT[sl]:
+                        a = dict(base)
+                        a[sl] = k
+                        assigns.append(a)
+        reqs = [list(p) for r in (1, 2) for p in itertools.permutations('ABC', r)]
+        for a in assigns:
+            src, text = {}, {}
+            for sl, k in a.items():
+                m = sl[0]
+                if k == 'absent':
+                    src[sl] = 'notfound'
+                    continue
+                src[sl] = 'ok'
+                text[sl] = {'only': 'only' + self.NEXT[m], 'plus': 'plus' + self.NEXT[m]}.get(k, k)
+            for edges in ([], [['A', 'B']], [['A', 'B'], ['B', 'C']]):
+                for req in reqs:
+                    for ie in (False, True):
+                        w = {'n': 3, 'edges': edges, 'used': 0, 'req': req, 'nsrc': 2, 'src': dict(src), 'text': dict(text)}
+                        if ie:
+                            w['opts'] = {'ignoreErrors': True}
+                        yield w
+
+    def run_case(self, case):
+        return run(case, 'C07|file-vs-module-names')
+
+
 class SeveralPerFile(object):
     """Files that hold several modules, across two sources: a broken module next to a sound file mate (either order), two copies
     of one module in a file (broken + sound, either order), a file that carries a copy - sound or broken - of ANOTHER module,
@@ -621,4 +678,4 @@ class SemanticOddities(object):
             vs.append(('%s|status-and-hand-over-disagree' % sig, '%r written %r' % (good, sorted(written))))
         return repr(sorted((k, str(v)) for k, v in res.items())), vs, 1
 
-FAMILIES = [SeveralPerFile(), NoDeviation(), OneDeviation(), TwoDeviations(), FailureAndRepair(), FilesOnDisk(), SemanticOddities()]
+FAMILIES = [SeveralPerFile(), FileNamesVsModuleNames(), NoDeviation(), OneDeviation(), TwoDeviations(), FailureAndRepair(), FilesOnDisk(), SemanticOddities()]
